@@ -244,6 +244,12 @@ def gen_case(rng):
         bs.append({"adapter": b["adapter"], "inputs": ins})
     if any(b["adapter"] == "sum" for b in bs) and out["units"] == 4:
         out["units"] = 3  # pint cannot reduce degC * s (offset unit): outside the modelled unit algebra
+    if any(b["adapter"] == "sum" for b in bs) and out["units"] is None:
+        # an unset producer unit is taken from the first requesting consumer: keep degC away from SumOverTime here too
+        for b in bs:
+            for x in b["inputs"]:
+                if x["units"] == 4:
+                    x["units"] = 3
     order = [[b, j] for b, br in enumerate(bs) for j in range(len(br["inputs"]))]
     rng.shuffle(order)
     return {"out": out, "branches": bs, "order": order}
